@@ -345,7 +345,8 @@ def run_threads(formulas, quanta):
 # an operand nested 650 levels deep: far beyond what the interpreter's default recursion limit allows the operators (about 490 levels), far below where C-level guards act (about 700).
 # Alone it gives the same outcome on any stack; it tells when an interpreter-wide setting is changed under a running evaluation.
 DEEP = '1+' + '{' * 650 + '1' + '}' * 650 + '+1'
-thread_formula = st.one_of(trees(False, 6).map(gf.render), st.sampled_from(['SUM(1,2,3)*4+A1', '10-3-2', '"a"&"b"&"c"', 'IF(1<2,"x","y")', '{1,2;3,4}', '1+', 'nosuch+1', 'MAX(A1:B2)-MIN(A1:B2)', 'CONCATENATE(v_s,1,2)', 'v_a*v_a-1']))
+thread_formula = st.one_of(trees(False, 6).map(gf.render), st.sampled_from(['SUM(1,2,3)*4+A1', '10-3-2', '"a"&"b"&"c"', 'IF(1<2,"x","y")', '{1,2;3,4}', '1+', 'nosuch+1', 'MAX(A1:B2)-MIN(A1:B2)', 'CONCATENATE(v_s,1,2)', 'v_a*v_a-1',
+                                                                                     'ROUND(2.5,0)&ROUND(0.125,2)&ROUND(1250.0,-2)', 'ROUND(3.5,0)+ROUND(-2.5,0)', 'TEXT(2.5,"0")&UPPER("x")']))
 thread_case = st.fixed_dictionaries({'f': st.tuples(st.lists(thread_formula, min_size=1, max_size=4), st.lists(thread_formula, min_size=1, max_size=4)).map(list),
                                      'quanta': st.lists(st.one_of(st.integers(1, 60), st.integers(1, 400)), min_size=1, max_size=60)})
 
@@ -634,6 +635,7 @@ def check_bindings(case):
         A = hot_.Parser()
         B = hot_.Parser()
     B.set_variable('v_a', 40)
+    B.on('callCellValue', lambda cell, setter: setter(777) if cell.label == 'Q9' else None)        # B's own listener: it answers Q9, whatever A subscribes or unsubscribes
     # what an untouched parser holding only v_a = 40 gives (fixed facts, so that state leaking through the process cannot taint the oracle)
     want = [{'result': w if e is None else None, 'error': e} for w, e in PROBE_WANT]
     for step, op in enumerate(case['ops']):
@@ -654,7 +656,10 @@ def check_bindings(case):
             g = B.parse(p)
             if not same_outcome(g, w):
                 raise Violation('after %r on parser A, parser B evaluates %r to %r instead of %r' % (case['ops'][:step + 1], p, g, w), enc(g['result']) if g['error'] is None else g['error'], enc(w['result']) if w['error'] is None else w['error'])
-        if set(B.variables.keys()) != set(['TRUE', 'FALSE', 'NULL', 'v_a']) or B.functions or any(B._e.get(k) for k in list(B._e.keys())):
+        gq = B.parse('Q9+1')
+        if gq != {'result': 778, 'error': None}:
+            raise Violation('after %r on parser A, parser B\'s own cell listener no longer answers: Q9+1 -> %r instead of 778' % (case['ops'][:step + 1], gq), gq['error'] or enc(gq['result']), 778)
+        if set(B.variables.keys()) != set(['TRUE', 'FALSE', 'NULL', 'v_a']) or B.functions or any(B._e.get(k) for k in list(B._e.keys()) if k != 'callCellValue') or len(B._e.get('callCellValue', [])) != 1:
             raise Violation('after %r on parser A, parser B holds bindings: variables %r functions %r listeners %r' % (case['ops'][:step + 1], sorted(B.variables), sorted(B.functions), dict(B._e)), None, None)
         # B's own one-shot listener works as if A did not exist: it answers the next reference and only that one
         B.once('callVariable', lambda name, setter: setter(555))
